@@ -199,11 +199,12 @@ Lemma data_agree_complete declared r evs t n :
   data_agree declared r evs = Complete t -> declared = Some n -> t = n.
 Proof.
   intros H Hd. subst declared. revert r H. induction evs as [|e evs IH]; intros r H; [discriminate|].
-  destruct e as [len es|]; cbn [data_agree] in H.
+  destruct e as [len es| |]; cbn [data_agree] in H.
   - destruct (n <? r + len); [discriminate|]. destruct es.
     + destruct (r + len =? n) eqn:E; cbn [negb] in H; [|discriminate]. injection H as <-. apply N.eqb_eq. exact E.
     + apply (IH _ H).
   - destruct (r =? n) eqn:E; cbn [negb] in H; [|discriminate]. injection H as <-. apply N.eqb_eq. exact E.
+  - discriminate.
 Qed.
 
 Lemma data_agree_never_exceeds declared r evs n :
@@ -211,11 +212,25 @@ Lemma data_agree_never_exceeds declared r evs n :
   match data_agree declared r evs with Open t | Complete t => t <= n | Reset => True end.
 Proof.
   intros Hd. subst declared. revert r. induction evs as [|e evs IH]; intros r Hr; cbn [data_agree]; [exact Hr|].
-  destruct e as [len es|].
+  destruct e as [len es| |].
   - destruct (n <? r + len) eqn:E; [exact I|]. apply N.ltb_ge in E. destruct es.
     + destruct (r + len =? n); cbn [negb]; [exact E|exact I].
     + apply IH. exact E.
   - destruct (r =? n); cbn [negb]; [exact Hr|exact I].
+  - exact I.
+Qed.
+
+(** an upload the client cancels before its END_STREAM is never complete *)
+Lemma data_agree_cancelled declared r pre post :
+  forallb (fun e => match e with Data _ false => true | _ => false end) pre = true ->
+  data_agree declared r (pre ++ Cancel :: post) = Reset.
+Proof.
+  revert r. induction pre as [|e pre IH]; intros r H; [reflexivity|].
+  cbn [forallb] in H. apply andb_prop in H. destruct H as [He Hp].
+  destruct e as [len es| |]; try discriminate He. destruct es; [discriminate He|].
+  cbn [app data_agree]. destruct declared as [n|].
+  - destruct (n <? r + len); [reflexivity|]. apply IH. exact Hp.
+  - apply IH. exact Hp.
 Qed.
 
 (* ------------------------------------------------------------------ *)
